@@ -1,0 +1,15 @@
+//go:build verif
+
+package segment
+
+import "time"
+
+// VerifSetTimeNow replaces the package clock (build tag "verif" only) and returns a restore function.
+func VerifSetTimeNow(f func() time.Time) (restore func()) {
+	org := timeNow
+	timeNow = f
+	return func() { timeNow = org }
+}
+
+// VerifMaxPayloadSize returns the maximum payload size of one segment.
+func VerifMaxPayloadSize() int { return maxPayloadSize }
